@@ -32,6 +32,9 @@ MERGE-SHAPE - merge concatenates self.content + other.content.
 INDEX-BUILD - _build_index registers every item under all its keys but the
 data key with the enumerate position, and stores that position in the item
 BEFORE its keys are walked (or leaves 'index' out of the walk).
+DIRECT-PICK - select_by does not subscript the content list with a value
+supplied by the caller (negative indices wrap). INDEX-OWNER - content and index of a Browser are assigned in the constructor
+only, the index from _build_index().
 Not decided: that the inverted index agrees with a naive scan of the items
 (value-level); hashing of metadata values.
 '''
@@ -56,6 +59,8 @@ def check(ctx):
     ctx.run(browser.check_merge_shape)
     ctx.run(browser.check_brw_pure, analyzer)
     ctx.run(browser.check_index_build)
+    ctx.run(browser.check_index_owner)
+    ctx.run(browser.check_direct_pick)
     ctx.count('functions_analysed', analyzer.functions_analysed)
     ctx.count('call_sites_resolved', analyzer.calls_resolved)
 
@@ -353,5 +358,47 @@ def variants(program):
             "index['index'][ielt].add(ielt)")
         return True
     add('twin-position-registered-apart', 'twin', index_apart)
+
+    def _fast_select(guard):
+        def editor(tree):
+            fun = find_func(tree, 'Browser.select_by')
+            pos = 1 if isinstance(fun.body[0], ast.Expr) else 0
+            fun.body[pos:pos] = parse_stmts(
+                "if list(kwargs) == ['index'] and not include and "
+                "not exclude:\n"
+                "    ind = kwargs['index']\n"
+                f"    if isinstance(ind, int){guard}:\n"
+                "        try:\n"
+                "            return self.content[ind]\n"
+                "        except IndexError:\n"
+                "            raise NoItemBrowserError('No item "
+                "corresponding to the selection.') from None")
+            return True
+        return editor
+    add('seed-select-by-index-picks-the-item-directly', 'mutant',
+        _fast_select(''), {'DIRECT-PICK'},
+        note='seed C17-r3-2: select_by(index=-1) returns the last item')
+    add('twin-select-by-index-fast-path-for-valid-positions', 'twin',
+        _fast_select(' and 0 <= ind < len(self.content)'),
+        note='undecided is allowed, an alarm is not')
+
+    def sub_browser_derived_index(tree):
+        # seed C17-r3-1 (reduced): index of the sub-browser derived from the
+        # parent's index instead of rebuilt
+        fun = find_func(tree, 'Browser.filter_by')
+        for idx_, stmt in enumerate(fun.body):
+            if isinstance(stmt, ast.Return) or (
+                    isinstance(stmt, ast.Assign) and
+                    'Browser(' in txt(stmt.value)):
+                name = txt(stmt.targets[0]) if isinstance(
+                    stmt, ast.Assign) else None
+                if name is None:
+                    return False
+                fun.body.insert(idx_ + 1, parse_stmts(
+                    f'{name}.index = self.index.keep_only(set(respids))')[0])
+                return True
+        return False
+    add('seed-sub-browser-index-derived-from-the-parent', 'mutant',
+        sub_browser_derived_index, {'INDEX-OWNER'})
 
     return out
